@@ -590,3 +590,69 @@ Proof.
 Qed.
 Lemma no_trap_hmtx_ix n m gid : hmtx_advance_ix n gid <> None /\ hmtx_lsb_ix n m gid <> None.
 Proof. split; discriminate. Qed.
+
+(* ---- sparse bit set decoder (IFT codepoint sets) ---- *)
+Lemma no_trap_sbs_fill_range nstart node_size bias maxv :
+  0 <= nstart -> 1 <= node_size -> nstart + node_size <= 18446744073709551615 ->
+  sbs_fill_range nstart node_size bias maxv <> None.
+Proof.
+  intros H0 H1 H2. unfold sbs_fill_range. destruct (_ && _); [|discriminate].
+  unfold addu64, subu64. rewrite chk_u64_some by lia. cbn [obind].
+  rewrite chk_u64_some by lia. cbn [obind]. discriminate.
+Qed.
+Lemma no_trap_sbs_leaf_value nstart bit bias maxv : sbs_leaf_value nstart bit bias maxv <> None.
+Proof. discriminate. Qed.
+
+Lemma chk_u32_some z : 0 <= z <= 4294967295 -> chk_u 32 z = Some z.
+Proof.
+  intros H. unfold chk_u, in_u. change (2 ^ 32) with 4294967296.
+  destruct (_ && _) eqn:E; [reflexivity|lia].
+Qed.
+
+Lemma sbs_path_ok bf height : 1 <= bf -> 0 <= height <= 4294967295 -> bf ^ height <= 9223372036854775808 ->
+  forall path depth start,
+  1 <= depth -> depth + Z.of_nat (length path) <= height -> 0 <= start ->
+  start + bf ^ (height - depth + 1) <= bf ^ height ->
+  Forall (fun i => 0 <= i < bf) path ->
+  exists s, sbs_path bf height depth start path = Some (s, depth + Z.of_nat (length path)) /\
+            0 <= s /\ s + bf ^ (height - (depth + Z.of_nat (length path)) + 1) <= bf ^ height.
+Proof.
+  intros Hbf Hh Hpow. induction path as [|i r IH]; intros depth start Hd Hlen Hs Hinv HF.
+  - cbn [sbs_path length Z.of_nat]. exists start. rewrite Z.add_0_r. auto.
+  - inversion HF as [|? ? Hi Hr]; subst. cbn [length] in Hlen. rewrite Nat2Z.inj_succ in Hlen.
+    cbn [sbs_path].
+    set (e := height - depth). assert (He : 0 <= e) by (subst e; lia).
+    assert (Hsz : 1 <= bf ^ e) by (apply Z.pow_pos_nonneg with (a := bf) in He; lia).
+    assert (Hsucc : bf ^ (height - depth + 1) = bf * bf ^ e).
+    { subst e. rewrite Z.pow_add_r by lia. rewrite Z.pow_1_r. lia. }
+    rewrite Hsucc in Hinv.
+    assert (Hszle : bf ^ e <= bf * bf ^ e) by nia.
+    assert (Hd1 : 0 <= i * bf ^ e <= (bf - 1) * bf ^ e) by nia.
+    rewrite chk_u32_some by (subst e; lia). cbn [obind].
+    rewrite chk_u64_some by lia. cbn [obind].
+    rewrite chk_u64_some by nia. cbn [obind].
+    unfold addu64. rewrite chk_u64_some by nia. cbn [obind].
+    rewrite chk_u32_some by lia. cbn [obind].
+    destruct (IH (depth + 1) (start + i * bf ^ e)) as [s [Es [Hs0 Hs1]]]; try lia; try assumption.
+    + replace (height - (depth + 1) + 1) with e by (subst e; lia). nia.
+    + exists s. cbn [length]. rewrite Nat2Z.inj_succ.
+      replace (depth + Z.succ (Z.of_nat (length r))) with (depth + 1 + Z.of_nat (length r)) by lia.
+      auto.
+Qed.
+
+Lemma no_trap_sbs_filled_node bf height bias maxv path :
+  1 <= bf -> 1 <= height <= 4294967295 -> bf ^ height <= 9223372036854775808 ->
+  Z.of_nat (length path) < height -> Forall (fun i => 0 <= i < bf) path ->
+  sbs_filled_node bf height bias maxv path <> None.
+Proof.
+  intros Hbf Hh Hpow Hlen HF. unfold sbs_filled_node.
+  destruct (sbs_path_ok bf height Hbf ltac:(lia) Hpow path 1 0) as [s [Es [Hs0 Hs1]]]; try lia; try assumption.
+  { replace (height - 1 + 1) with height by lia. lia. }
+  rewrite Es.
+  set (d := 1 + Z.of_nat (length path)) in *.
+  rewrite chk_u32_some by (subst d; lia). cbn [obind].
+  rewrite chk_u32_some by (subst d; lia). cbn [obind].
+  assert (Hp : 0 < bf ^ (height - d + 1)) by (apply Z.pow_pos_nonneg; subst d; lia).
+  rewrite chk_u64_some by lia. cbn [obind].
+  apply no_trap_sbs_fill_range; lia.
+Qed.
